@@ -65,7 +65,9 @@ impl<R: Read> DefaultProtocolReader<R> {
     fn verify_string_type(&mut self) -> bool {
         if self.ok {
             match self.type_and_value.type_id {
-                FSM_PROTOCOL_TYPE_STRING_LENGTH_4BIT | FSM_PROTOCOL_TYPE_STRING_LENGTH_12BIT => true,
+                FSM_PROTOCOL_TYPE_STRING_LENGTH_4BIT
+                | FSM_PROTOCOL_TYPE_STRING_LENGTH_12BIT
+                | FSM_PROTOCOL_TYPE_STRING_LENGTH_28BIT => true,
                 _ => {
                     self.error(format!("Expected string type, got #{}", self.type_and_value.type_id).as_str());
                     false
@@ -262,6 +264,29 @@ impl<R: Read> DefaultProtocolReader<R> {
                             }
                         }
                     }
+                    FSM_PROTOCOL_TYPE_STRING_LENGTH_28BIT => {
+                        self.type_and_value.type_id = FSM_PROTOCOL_TYPE_STRING_LENGTH_28BIT;
+                        self.type_and_value.number = (val & 0x0F) as u64;
+                        self.read_additional_number_bytes(3);
+                        if self.ok {
+                            // Too long for the fixed buffer.
+                            let mut long_buffer = vec![0u8; self.type_and_value.number as usize];
+                            self.type_and_value.number = 0;
+                            match self.reader.read_exact(&mut long_buffer) {
+                                Ok(_) => match String::from_utf8(long_buffer) {
+                                    Ok(val) => {
+                                        self.type_and_value.string = val;
+                                    }
+                                    Err(err_utf) => {
+                                        self.error(format!("Error in utf8 sequence: {}", err_utf).as_str());
+                                    }
+                                },
+                                Err(err) => {
+                                    self.error(format!("Error reading: {}", err).as_str());
+                                }
+                            }
+                        }
+                    }
                     _ => {}
                 },
                 Err(e) => {
@@ -308,9 +333,9 @@ impl<R: Read> ProtocolReader<R> for DefaultProtocolReader<R> {
             self.read_type_and_size();
             return match self.type_and_value.type_id {
                 FSM_PROTOCOL_TYPE_OPT_STRING_NONE => None,
-                FSM_PROTOCOL_TYPE_STRING_LENGTH_12BIT | FSM_PROTOCOL_TYPE_STRING_LENGTH_4BIT => {
-                    Some(self.type_and_value.string.clone())
-                }
+                FSM_PROTOCOL_TYPE_STRING_LENGTH_28BIT
+                | FSM_PROTOCOL_TYPE_STRING_LENGTH_12BIT
+                | FSM_PROTOCOL_TYPE_STRING_LENGTH_4BIT => Some(self.type_and_value.string.clone()),
                 _ => {
                     self.error(format!("Expected string, got {}", self.type_and_value.type_id).as_str());
                     None
